@@ -53,7 +53,7 @@ func CertsSTACK(ident string) []STACK.Certificate {
 func BuildSTACK(e EPConfig, reg *Registry) *STACK.Config {
 	p := GetPKI()
 	c := &STACK.Config{
-		Time:               func() time.Time { return Now().AddDate(e.TimeShiftYears, 0, 0) },
+		Time:               func() time.Time { return e.Clock() },
 		Certificates:       CertsSTACK(e.Ident),
 		NextProtos:         e.ALPN,
 		ServerName:         e.ServerName,
@@ -68,6 +68,8 @@ func BuildSTACK(e EPConfig, reg *Registry) *STACK.Config {
 		c.RootCAs, c.ClientCAs = p.CA.Pool, p.CA.Pool
 	case "other":
 		c.RootCAs, c.ClientCAs = p.OtherCA.Pool, p.OtherCA.Pool
+	case "rootcas-only": // trust store for the servers this endpoint connects to, none for client certificates
+		c.RootCAs = p.CA.Pool
 	case "none":
 	}
 	if e.RandSeed != 0 {
